@@ -161,8 +161,40 @@ func (vc *VC) execReturn(ins *ssa.Return) {
 	}
 }
 
-// checkFrame: a store into object r must be allowed by the assigns clause (or hit a fresh object).
+// regionOf: the cells an assigns target denotes: (ref, first cell, number of cells). Pointers denote their
+// pointee, slices their full capacity window; anything else the whole object (ncells == "").
+func (vc *VC) regionOf(v *Val) (r, o, n string) {
+	switch v.K {
+	case KPtr:
+		if v.T != nil {
+			if pt, ok := v.T.Underlying().(*types.Pointer); ok {
+				return v.C[0], v.C[1], off64(layoutOf(pt.Elem()).N)
+			}
+		}
+	case KSlice:
+		if v.T != nil {
+			if st, ok := v.T.Underlying().(*types.Slice); ok {
+				return v.C[0], v.C[1], mulOff(v.C[3], layoutOf(st.Elem()).N)
+			}
+		}
+	}
+	return vc.refOf(v), "", ""
+}
+
+func (vc *VC) inRegion(v *Val, r, o string) string {
+	vr, vo, vn := vc.regionOf(v)
+	if vn == "" || o == "" {
+		return sEq(r, vr)
+	}
+	return sAnd(sEq(r, vr), bvCmp("bvult", bvBin("bvsub", o, vo), vn))
+}
+
+// checkFrame: a store to cell (r,o) must be allowed by the assigns clause (or hit a fresh object).
 func (vc *VC) checkFrame(r string, pos token.Pos, l *Layout) {
+	vc.checkFrameAt(r, "", pos)
+}
+
+func (vc *VC) checkFrameAt(r, o string, pos token.Pos) {
 	if vc.c == nil || !vc.c.HasAssigns || vc.c.AssignsAny {
 		return
 	}
@@ -170,9 +202,40 @@ func (vc *VC) checkFrame(r string, pos token.Pos, l *Layout) {
 	alts := []string{app(">=", r, vc.heap0.alloc)}
 	for _, cl := range vc.c.Assigns {
 		v := vc.compile(env, cl.N)
-		alts = append(alts, sEq(r, vc.refOf(v)))
+		alts = append(alts, vc.inRegion(v, r, o))
 	}
 	vc.oblige("frame", vc.cur.pc, sOr(alts...), pos, "store target is within the assigns clause or freshly allocated")
+}
+
+// havocRegion: the callee may write the cells denoted by assigns target v (and nothing else of that object).
+func (vc *VC) havocRegion(h *Heap, v *Val) {
+	r, o, n := vc.regionOf(v)
+	if n == "" {
+		vc.havocObj(h, r, vc.elemComps(v))
+		return
+	}
+	if v.K == KPtr {
+		el := layoutOf(v.T.Underlying().(*types.Pointer).Elem())
+		if el.N <= 64 {
+			vc.eachCell(el, 0, func(cl *Layout, off int64) {
+				cell := bvBin("bvadd", o, off64(off))
+				for _, c := range compsOf(cl.Kind, cl.W) {
+					old := h.m[c.name]
+					fv := vc.fresh("hv", compSort(c.name))
+					h.m[c.name] = vc.define("H", heapSort(c.name), sto(old, r, sto(sel(old, r), cell, fv)))
+				}
+			})
+			return
+		}
+	}
+	for _, c := range sortedKeys(vc.elemComps(v)) {
+		old := h.m[c]
+		inner := vc.fresh("A", innerSort(c))
+		j := "j!"
+		vc.assume(fmt.Sprintf("(forall ((%s (_ BitVec 64))) (! (=> (not (bvult %s %s)) (= %s %s)) :pattern (%s)))", j,
+			bvBin("bvsub", j, o), n, sel(inner, j), sel(sel(old, r), j), sel(inner, j)))
+		h.m[c] = vc.define("H", heapSort(c), sto(old, r, inner))
+	}
 }
 
 // ---------- calls ----------
@@ -457,7 +520,17 @@ func (vc *VC) applyContract(ins *ssa.Call, c *Contract, f *ssa.Function, sig *ty
 			continue
 		}
 		t := vc.compileClause(env, cl)
-		vc.oblige("pre.nopanic", vc.cur.pc, sNot(t), ins.Pos(), "documented panic condition of callee is excluded: "+cl.Src)
+		// the callee's documented panic may be the caller's own documented panic
+		own := []string{}
+		if vc.c != nil {
+			ee := vc.entryEnv()
+			for _, pc := range vc.c.PanicsIf {
+				if vc.c.clauseMode(pc) == vc.modeName() {
+					own = append(own, vc.compileClause(ee, pc))
+				}
+			}
+		}
+		vc.oblige("pre.nopanic", vc.cur.pc, sOr(append(own, sNot(t))...), ins.Pos(), "documented panic condition of callee is excluded (or is the caller's documented panic): "+cl.Src)
 	}
 	// frame
 	switch {
@@ -465,8 +538,10 @@ func (vc *VC) applyContract(ins *ssa.Call, c *Contract, f *ssa.Function, sig *ty
 		for _, cl := range c.Assigns {
 			v := vc.compile(env, cl.N)
 			comps := vc.elemComps(v)
-			vc.checkFrameCall(vc.refOf(v), ins.Pos())
-			vc.havocObj(h, vc.refOf(v), comps)
+			_ = comps
+			rr, ro, _ := vc.regionOf(v)
+			vc.checkFrameAt(rr, ro, ins.Pos())
+			vc.havocRegion(h, v)
 		}
 		na := vc.fresh("alloc", "Int")
 		vc.assume(app(">=", na, h.alloc))
@@ -548,7 +623,7 @@ func (vc *VC) execBuiltin(ins *ssa.Call, f *ssa.Builtin) {
 			et = st.Elem()
 		}
 		l := layoutOf(et)
-		vc.checkFrameIf(sNot(sEq(n, off64(0))), dst.C[0], ins.Pos())
+		vc.checkFrameIfAt(sNot(sEq(n, off64(0))), dst.C[0], dst.C[1], ins.Pos())
 		src2 := src
 		vc.memcpy(h, dst.C[0], dst.C[1], h.clone(), src2.C[0], src2.C[1], l, mulOff(n, l.N), -1)
 		vc.vals[ins] = mkInt(n)
@@ -582,6 +657,10 @@ func (vc *VC) execBuiltin(ins *ssa.Call, f *ssa.Builtin) {
 }
 
 func (vc *VC) checkFrameIf(cond string, r string, pos token.Pos) {
+	vc.checkFrameIfAt(cond, r, "", pos)
+}
+
+func (vc *VC) checkFrameIfAt(cond string, r, o string, pos token.Pos) {
 	if vc.c == nil || !vc.c.HasAssigns || vc.c.AssignsAny {
 		return
 	}
@@ -589,7 +668,7 @@ func (vc *VC) checkFrameIf(cond string, r string, pos token.Pos) {
 	alts := []string{sNot(cond), app(">=", r, vc.heap0.alloc)}
 	for _, cl := range vc.c.Assigns {
 		v := vc.compile(env, cl.N)
-		alts = append(alts, sEq(r, vc.refOf(v)))
+		alts = append(alts, vc.inRegion(v, r, o))
 	}
 	vc.oblige("frame", vc.cur.pc, sOr(alts...), pos, "copy/append target is within the assigns clause or freshly allocated")
 }
@@ -619,7 +698,7 @@ func (vc *VC) execAppend(ins *ssa.Call, args []*Val) {
 	snap := h.clone()
 	// in place branch
 	hin := h.clone()
-	vc.checkFrameIf(sAnd(fits, sNot(sEq(sn, off64(0)))), s.C[0], ins.Pos())
+	vc.checkFrameIfAt(sAnd(fits, sNot(sEq(sn, off64(0)))), s.C[0], bvBin("bvadd", s.C[1], mulOff(s.C[2], l.N)), ins.Pos())
 	vc.memcpy(hin, s.C[0], bvBin("bvadd", s.C[1], mulOff(s.C[2], l.N)), snap, sr, so, l, mulOff(sn, l.N), -1)
 	// fresh branch
 	hfr := h.clone()
@@ -635,6 +714,21 @@ func (vc *VC) execAppend(ins *ssa.Call, args []*Val) {
 	vc.bind(ins, res)
 	// lengths stay within the model's bound
 	vc.assume(app("bvule", newLen, maxCells))
+	// summary of the result (consequences of the two-branch model, stated over absolute cell indices so that
+	// they chain through nested appends): prefix = old contents of s, suffix = appended elements
+	rv := vc.vals[ins]
+	for _, c := range sortedKeys(l.Comps()) {
+		newA := sel(h.m[c], rv.C[0])
+		cidx := "c!"
+		rel := bvBin("bvsub", cidx, rv.C[1])
+		pre := fmt.Sprintf("(forall ((%s (_ BitVec 64))) (! (=> (bvult %s %s) (= %s %s)) :pattern (%s)))", cidx, rel, mulOff(s.C[2], l.N),
+			sel(newA, cidx), sel(sel(snap.m[c], s.C[0]), bvBin("bvadd", s.C[1], rel)), sel(newA, cidx))
+		rel2 := bvBin("bvsub", rel, mulOff(s.C[2], l.N))
+		suf := fmt.Sprintf("(forall ((%s (_ BitVec 64))) (! (=> (bvult %s %s) (= %s %s)) :pattern (%s)))", cidx, rel2, mulOff(sn, l.N),
+			sel(newA, cidx), sel(sel(snap.m[c], sr), bvBin("bvadd", so, rel2)), sel(newA, cidx))
+		vc.assume(sImp(vc.cur.pc, pre))
+		vc.assume(sImp(vc.cur.pc, suf))
+	}
 }
 
 func shortName(s string) string {
